@@ -4,12 +4,13 @@ INTERNAL_invoke_with_func_ptr (750-811) for a generated family of signatures (pa
 INTERNAL_get_sandbox_function_ptr (973-977).  The backend call itself (impl_invoke_with_func_ptr) is a contract stub
 that records how often, with which function address and with which guest-ABI arguments it was called."""
 from vlib.unit import Unit, Inst, find_func
+import vlib.replay_c09  # registers native replay kinds (invoke)
 from .common import cs, PRE_GHOST, mi
 from .C03 import REGIONS, SB_DECL, sb_req, SB
 
 PROP = 'C11'
 TITLE = 'Sandbox function invocation delivers arguments and results faithfully'
-FUNCTIONS = ['rlbox_sandbox::INTERNAL_invoke_with_func_ptr (rlbox_sandbox.hpp:750-811)', 'rlbox_sandbox::invoke_process_param (183-213)',
+FUNCTIONS = ['rlbox_sandbox::INTERNAL_invoke_with_func_ptr (rlbox_sandbox.hpp:750-811)', 'rlbox_sandbox::lookup_symbol, internal_lookup_symbol, INTERNAL_invoke_with_func_name (696-743)', 'rlbox_sandbox::invoke_process_param (183-213)',
              'rlbox_sandbox::INTERNAL_get_sandbox_function_ptr (973-977)']
 
 # parameter kinds: name -> dict(decl type in signature, C++ snippet param, harness decl, expected guest value expr, guest C type, no-abort condition)
@@ -107,7 +108,7 @@ def invoke_inst(pkinds, rkind, tier):
               '__CPROVER_assigns(g_fn_swizzles, g_fn_swizzled)')
     leaves = ['dynamic_check', stub, fn_swz, 'vsbx.impl_get_sandboxed_pointer', 'vsbx.impl_get_unsandboxed_pointer']
     return Inst(name, params, call, cl, h, leaves=leaves, prop=PROP, root_name='INTERNAL_invoke_with_func_ptr', tier=tier, pre=ghost,
-                note='signature %s with argument forms %s' % (fsig, pkinds), timeout=300)
+                replay={'kind': 'invoke', 'params': list(pkinds), 'ret': rkind}, note='signature %s with argument forms %s' % (fsig, pkinds), timeout=300)
 
 
 def fnptr_inst(tier):
@@ -118,23 +119,87 @@ def fnptr_inst(tier):
                 root_name='INTERNAL_get_sandbox_function_ptr', tier=tier, pre=PRE_GHOST)
 
 
+# ---------------------------------------------------------------- symbol cache (lookup_symbol / internal_lookup_symbol)
+SYM_GH = PRE_GHOST + ''' unsigned char g_name_id; unsigned long g_name; unsigned g_be_lookups; unsigned long g_be_lookup_name, g_be_lookup_result; unsigned char g_o;
+struct M_string vstd_string_cstr(const char *s)
+__CPROVER_ensures(__CPROVER_return_value.src == s)
+__CPROVER_assigns();
+/* content of a name abstracted to an id: the one name of this call has id g_name_id (any other name has another id) */
+unsigned char vstd_str_id(struct M_string k)
+__CPROVER_requires((unsigned long)k.src == g_name) /*@key_is_the_name_that_was_asked_for*/
+__CPROVER_ensures(__CPROVER_return_value == g_name_id)
+__CPROVER_assigns();
+'''
+
+
+def lookup_inst(fn_name, tier, be_cls='vsbx'):
+    """lookup_symbol caches in func_ptr_map (addresses the application calls), internal_lookup_symbol in internal_func_ptr_map
+    (addresses as the sandbox sees them); be_cls vsbx_il: a backend for which the two differ (needs_internal_lookup_symbol)"""
+    internal = fn_name == 'internal_lookup_symbol'
+    M = '$this->%s' % ('internal_func_ptr_map' if internal else 'func_ptr_map')
+    OTHER = '$this->%s' % ('func_ptr_map' if internal else 'internal_func_ptr_map')
+    SBX = cs('rlbox::rlbox_sandbox<rlbox::%s>' % be_cls)
+    be_fn = 'impl_internal_lookup_symbol' if (internal and be_cls == 'vsbx_il') else 'impl_lookup_symbol'
+    wrong_fn = 'impl_lookup_symbol' if be_fn == 'impl_internal_lookup_symbol' else 'impl_internal_lookup_symbol'
+    be = ('backend %s(recording stub)' % be_fn, _is(be_fn),
+          '__CPROVER_ensures(g_be_lookups == __CPROVER_old(g_be_lookups) + 1 && g_be_lookup_name == (unsigned long)$0 && (unsigned long)$ret == g_be_lookup_result)\n'
+          '__CPROVER_assigns(g_be_lookups, g_be_lookup_name)')
+    other = ('backend %s(must not be used here)' % wrong_fn, _is(wrong_fn), '__CPROVER_requires(0) /*@the_other_kind_of_lookup_is_never_used*/\n__CPROVER_assigns()')
+    cl = [('obj', '__CPROVER_requires(__CPROVER_rw_ok($this, sizeof(struct %s)) && g_be_lookups == 0 && g_name == (unsigned long)$0)' % SBX),
+          ('cached_name_answered_from_this_instances_cache', '__CPROVER_ensures(__CPROVER_old(%s.present[g_name_id]) ==> ((unsigned long)$ret == (unsigned long)__CPROVER_old(%s.val[g_name_id]) && g_be_lookups == 0))' % (M, M)),
+          ('new_name_resolved_once_by_this_instances_backend', '__CPROVER_ensures(!__CPROVER_old(%s.present[g_name_id]) ==> (g_be_lookups == 1 && g_be_lookup_name == (unsigned long)$0 && (unsigned long)$ret == g_be_lookup_result))' % M),
+          ('answer_is_cached', '__CPROVER_ensures(%s.present[g_name_id] && (unsigned long)%s.val[g_name_id] == (unsigned long)$ret)' % (M, M)),
+          ('other_names_unchanged', '__CPROVER_ensures(g_o != g_name_id ==> (%s.present[g_o] == __CPROVER_old(%s.present[g_o]) && %s.val[g_o] == __CPROVER_old(%s.val[g_o])))' % (M, M, M, M)),
+          # the frame leaves the other cache out: application-side addresses and sandbox-side representations never mix
+          ('frame_only_its_own_cache', '__CPROVER_assigns(%s, g_be_lookups, g_be_lookup_name)' % M)]
+    h = ('  struct %s sb; uintptr_t in_name; g_name = in_name; unsigned char in_id; g_name_id = in_id; unsigned char in_o; g_o = in_o;\n'
+         '  unsigned long in_res; g_be_lookup_result = in_res; g_be_lookups = 0;\n  void *r = (void *)$ROOT(&sb, (const char *)in_name);\n' % SBX)
+    return Inst('c11_%s%s' % (fn_name, '' if be_cls == 'vsbx' else '_distinct_representations'), 'rlbox_sandbox<%s>& s, const char* n' % be_cls, 's.%s(n);' % fn_name, cl, h,
+                leaves=['dynamic_check', be, other], prop=PROP, root_name=fn_name,
+                tier=tier, pre=SYM_GH, opts={'map_str_keys': True}, extra_replace=['vstd_string_cstr', 'vstd_str_id'],
+                note='std::map<std::string, void*> as an array view over abstract name ids (M-map, string keys); the caches are members of this sandbox object; backend %s' % be_cls)
+
+
+def by_name_inst(tier):
+    """INTERNAL_invoke_with_func_name: the address invoked is the one lookup_symbol of *this* instance returned for *that* name"""
+    TL = cs('rlbox::tainted<int, rlbox::vsbx>')
+    G = PRE_GHOST + ' unsigned g_lookups, g_invokes; unsigned long g_lookup_name, g_sym, g_inv_fn, g_inv_name, g_lookup_this, g_inv_this; long g_inv_arg; int g_inv_ret;\n'
+    lk = ('rlbox_sandbox::lookup_symbol(contract)', _is('lookup_symbol'),
+          '__CPROVER_ensures(g_lookups == __CPROVER_old(g_lookups) + 1 && g_lookup_name == (unsigned long)$0 && g_lookup_this == (unsigned long)$this && (unsigned long)$ret == g_sym)\n'
+          '__CPROVER_assigns(g_lookups, g_lookup_name, g_lookup_this)')
+    iv = ('rlbox_sandbox::INTERNAL_invoke_with_func_ptr(contract)', _is('INTERNAL_invoke_with_func_ptr'),
+          '__CPROVER_ensures(g_invokes == __CPROVER_old(g_invokes) + 1 && g_inv_name == (unsigned long)$0 && g_inv_fn == (unsigned long)$1 && g_inv_this == (unsigned long)$this && g_inv_arg == *$2 && $ret.data == g_inv_ret)\n'
+          '__CPROVER_assigns(g_invokes, g_inv_name, g_inv_fn, g_inv_this, g_inv_arg)')
+    cl = [('fresh', '__CPROVER_requires(g_lookups == 0 && g_invokes == 0 && __CPROVER_r_ok($1, sizeof(long)))'),
+          ('looked_up_once_in_this_instance_under_that_name', '__CPROVER_ensures(g_lookups == 1 && g_lookup_name == (unsigned long)$0 && g_lookup_this == (unsigned long)$this)'),
+          ('invoked_once_at_the_address_that_lookup_returned', '__CPROVER_ensures(g_invokes == 1 && g_inv_fn == g_sym && g_inv_this == (unsigned long)$this && g_inv_name == (unsigned long)$0)'),
+          ('argument_and_result_passed_through', '__CPROVER_ensures(g_inv_arg == __CPROVER_old(*$1) && $ret.data == g_inv_ret)'),
+          ('frame', '__CPROVER_assigns(g_lookups, g_lookup_name, g_lookup_this, g_invokes, g_inv_name, g_inv_fn, g_inv_this, g_inv_arg)')]
+    h = ('  struct %s sb; uintptr_t in_name; long a; long in_a = a; unsigned long in_sym; g_sym = in_sym; int in_ret; g_inv_ret = in_ret; g_lookups = 0; g_invokes = 0;\n'
+         '  struct %s r = $ROOT(&sb, (const char *)in_name, &a);\n' % (SB, TL))
+    return Inst('c11_invoke_by_name', 'rlbox_sandbox<vsbx>& s, const char* n, long a', 's.INTERNAL_invoke_with_func_name<int(long)>(n, a);', cl, h, leaves=[lk, iv], prop=PROP,
+                root_name='INTERNAL_invoke_with_func_name', tier=tier, pre=G)
+
+
 def units(tier):
     fam = [([], 'void'), (['long_plain'], 'int'), (['long_tainted', 'ptr_tainted'], 'int'), (['fnptr_tainted', 'long_plain'], 'int'), (['long_opaque'], 'long'), (['nullptr', 'int_plain'], 'ptr'),
            (['ulong_tainted', 'long_plain', 'ptr_tainted'], 'void')]
     if tier != 'quick':
         fam += [(['long_plain'] * 4, 'long'), (['long_tainted', 'ptr_tainted', 'int_plain', 'ulong_tainted', 'long_opaque', 'nullptr'], 'ptr'),
                 (['long_tainted'] * 8, 'int'), (['long_plain', 'long_tainted', 'long_opaque', 'ulong_tainted', 'int_plain', 'ptr_tainted', 'nullptr', 'long_plain', 'long_tainted', 'ptr_tainted', 'int_plain', 'long_opaque'], 'int')]
-    insts = [invoke_inst(p, r, tier) for p, r in fam] + [fnptr_inst(tier)]
+    insts = [invoke_inst(p, r, tier) for p, r in fam] + [fnptr_inst(tier), lookup_inst('lookup_symbol', tier), lookup_inst('internal_lookup_symbol', tier),
+                                                                  lookup_inst('lookup_symbol', tier, 'vsbx_il'), lookup_inst('internal_lookup_symbol', tier, 'vsbx_il'), by_name_inst(tier)]
     return [Unit('C11_invoke', insts)]
 
 
 ASSUMPTIONS = [
     'the backend\'s impl_invoke_with_func_ptr calls the function address it is given exactly once with the arguments it is given (stub records them); dlsym / static symbol resolution are the backend\'s',
     'A_backend pointer translation contracts for argument and result pointers',
-    'by-value structs and callbacks as arguments are decided under C08 / C12; symbol cache (lookup_symbol) is not decided here',
+    'by-value structs and callbacks as arguments are decided under C08 / C12',
+    'symbol caches: std::map<std::string, void*> as an array view over abstract 8-bit name ids (equal content <=> equal id is the contract of the stub vstd_str_id); dlsym / static resolution are the backend\'s',
 ]
 TRUSTED = ['the generated signature family stands for "every signature": parameter packs arrive expanded per instance']
 MANIFEST = {
     'level_text': 'For each signature of the generated family and each argument form (plain primitive, tainted, tainted_opaque, tainted pointer, nullptr) INTERNAL_invoke_with_func_ptr is proved to call the backend exactly once, with exactly the function address that was named, with every argument converted to the guest ABI in order (or to abort before the call when one is not representable, and not to abort otherwise), and to return the backend result converted back with the sandbox context of this instance. Loop-free, full-width symbolic arguments: complete per signature.',
-    'level_note': 'Reduced claim: signatures outside the generated family are further instantiations of the same code; the symbol cache (lookup_symbol / internal_lookup_symbol, std::map<std::string, void*>) and the backend call itself are not decided (listed in not-decided part of DESIGN.md C11).',
+    'level_note': 'Reduced claim: signatures outside the generated family are further instantiations of the same code; the backend call itself is a recording stub. lookup_symbol / internal_lookup_symbol are proved against an abstract cache view (answered from the cache of this instance or resolved once by the backend of this instance, other names unchanged, the two kinds of address never mixed - also for a backend whose two representations differ), and INTERNAL_invoke_with_func_name is proved to invoke exactly the address that lookup returned for that name in that instance.',
 }
